@@ -27,7 +27,7 @@ from ..translate import c15_skeleton as sk
 from . import c15_drivers as drv
 
 PRE = ("From EsVerif.Common Require Import Base Bytes.\nFrom EsVerif.C15 Require Import Model Spec Exec.\n"
-       "From Coq Require Import String.\nOpen Scope string_scope.\n")
+       "From Coq Require Import Uint63.\n")
 PRE_STATIC = "From EsVerif.Common Require Import Base.\nFrom EsVerif.C15 Require Import Model Spec Exec.\n"
 
 BY_NAME = {d["name"]: d for d in drv.DRIVERS}
@@ -130,6 +130,8 @@ def values(kind, shape, rs):
         return np.sort(rs.uniform(-45, 45, size=n)).reshape(shape) + np.arange(n).reshape(shape)
     if kind == "vals":
         return rs.uniform(-9, 9, size=shape)
+    if kind == "strs":
+        return np.array(["ab%d" % (i % 3) for i in range(n)]).reshape(shape)
     raise KeyError(kind)
 
 
@@ -156,7 +158,7 @@ def make_array(kind, dt, order, layout, nd, rs, nelem=6):
         dtype = rec_dtype(REC2_FIELDS, order)
     elif kind == "wcsrec":
         hdr = ns_const("TAN_HDR")
-        f = [(k, "S12" if isinstance(v, str) else ("f8" if isinstance(v, float) else "i4"), None) for k, v in hdr.items()]
+        f = [(k, "U12" if isinstance(v, str) else ("f8" if isinstance(v, float) else "i4"), None) for k, v in hdr.items()]
         dtype = rec_dtype(f, order)
     else:
         t = dt if dt != "rec" else "f8"
@@ -186,7 +188,7 @@ def make_array(kind, dt, order, layout, nd, rs, nelem=6):
         if kind == "wcsrec":
             hdr = ns_const("TAN_HDR")
             for k, v in hdr.items():
-                a[k] = v.encode() if isinstance(v, str) else v
+                a[k] = v
         else:
             tmp = np.zeros(shape, dtype=dtype)
             fill_rec(tmp, rs)
@@ -238,6 +240,19 @@ def snapshot(a):
     meta = "dtype=%s;descr=%s;shape=%s;strides=%s;writeable=%s;base_dtype=%s;base_shape=%s;base_strides=%s" % (
         a.dtype.str, a.dtype.descr, a.shape, a.strides, a.flags.writeable, b.dtype.descr, b.shape, b.strides)
     return raw.hex(), meta
+
+
+def chunks63(b):
+    """bytes -> Coq term (n, [c0; c1; ...]) : 7 bytes per primitive 63-bit integer, big-endian, last chunk zero-padded
+    (decoded by Exec.bytes63; string literals are ~100 times slower to parse in coqc)"""
+    n = len(b)
+    pad = b + b"\0" * ((-n) % 7)
+    cs = ["0x%x" % int.from_bytes(pad[i:i + 7], "big") for i in range(0, len(pad), 7)]
+    return "%d%%Z, [%s]%%uint63" % (n, "; ".join(cs))
+
+
+def snap63(hexdata, meta):
+    return "(%s, %s)" % (chunks63(bytes.fromhex(hexdata)), chunks63(meta.encode("utf-8")))
 
 
 def variants(d, ctx, full):
@@ -349,8 +364,8 @@ class Dyn(Entry):
         pairs = []
         for p in sorted(out["args"]):
             b0, m0, b1, m1 = out["args"][p]
-            pairs.append("(mk_snap %s %s, mk_snap %s %s)" % (cstr(b0), cstr(m0), cstr(b1), cstr(m1)))
-        return "v_dynamic %s [%s]" % (cbool(STATIC_OK.get(c["driver"], False)), "; ".join(pairs))
+            pairs.append("(%s, %s)" % (snap63(b0, m0), snap63(b1, m1)))
+        return "v_dynamic63 %s [%s]" % (cbool(STATIC_OK.get(c["driver"], False)), "; ".join(pairs))
 
     def nontrivial(self, c, out):
         # DESIGN 2.3: the argument needs an internal conversion (non-native, strided or non-f8)
